@@ -89,6 +89,7 @@ structure Tube where
   tx : Sender
   msgs : List Bytes   -- unreliable tubes: queued messages
   recvClosed : Bool
+  reserved : Bool := false   -- closed, kept in the map by the reaper's timer (`shut`)
   deriving Repr
 
 abbrev Key := Bool × Nat
@@ -215,9 +216,25 @@ def accept (m : Mux) : Mux × Option Tube :=
     ({ m with queue := rest,
               tubes := m.tubes.map fun u => if u.key = q.key then { u with held := true } else u }, some q)
 
-/-- the reaper removed the tube -/
+/-- the reaper removed the tube.  A reliable tube that this side opened and that has finished its
+close handshake (`shut`, below) sits in the map in state `closed` until the reaper's timer has run. -/
 def canReap (t : Tube) : Bool :=
-  t.held && (if t.rel then t.state == .initiated || t.state == .closeWait else true)
+  (t.held && (if t.rel then t.state == .initiated || t.state == .closeWait else true)) || t.reserved
+
+/-- `reapTube` keeps the identifier of a reliable tube of the muxer's own parity (whoever opened it)
+reserved for 4·RTT after the tube is closed -/
+def canShut (parity : Nat) (t : Tube) : Bool :=
+  t.rel && t.id % 2 == parity % 2 && t.held && (t.state == .initiated || t.state == .closeWait)
+
+/-- the tube went through its close handshake: it is closed and no longer used by the application,
+but stays in the map (its identifier reserved) until `reap` -/
+def shut (m : Mux) (k : Key) : Mux × Bool :=
+  match lookup m.tubes k with
+  | some t =>
+    if canShut m.parity t then
+      ({ m with tubes := setTube m.tubes { t with state := .closed, held := false, reserved := true } }, true)
+    else (m, false)
+  | none => (m, false)
 
 def reap (m : Mux) (k : Key) : Mux × Bool :=
   match lookup m.tubes k with
